@@ -1,8 +1,7 @@
 #!/bin/sh
 # tools/seed_eval.sh <ID> [extra check ids...] : confirm a sub-agent's change in its worktree, store it under seeded/, run checks on /repo with it applied
 ID=$1; shift
-WT=/tmp/seed_$ID
-OUT=/verif/seeded/$ID
+if [ "${ROUND:-1}" = "1" ]; then WT=/tmp/seed_$ID; OUT=/verif/seeded/$ID; else WT=/tmp/seed${ROUND}_$ID; OUT=/verif/seeded/$ID-r$ROUND; fi
 mkdir -p $OUT
 git -C $WT diff > $OUT/patch.diff
 cp $WT/demo_$ID.py $OUT/demo.py 2>/dev/null
